@@ -79,12 +79,18 @@ func c12Run(raw []byte) (*Line, error) {
 		xmin, xmax = math.Min(xmin, x), math.Max(xmax, x)
 	}
 	if bc {
-		if bmin > bmax {
-			return nil, fmt.Errorf("BoundaryMin > BoundaryMax")
+		if !(bmin < bmax) {
+			return nil, fmt.Errorf("empty support [BoundaryMin, BoundaryMax): outside the property")
 		}
 		if len(xs) > 0 && (xmin < bmin || xmax > bmax) {
 			return nil, fmt.Errorf("data outside the boundaries")
 		}
+	}
+	if both && h == 0 && ws == nil && c12ScottDegenerate(xs) {
+		// Scott's rule gives Bandwidth 0 (StdDev or IQR is 0): outside the property (positive
+		// bandwidth), and the image series of the doubly bounded estimate then sums NaN terms
+		// for ever (series stops only when the partial sum stops changing)
+		return nil, fmt.Errorf("lazy bandwidth would be 0 for this sample with a double boundary: outside the property, PDF/CDF do not return")
 	}
 	callBounds := c.Bounds || c.First == 2
 	if len(xs) == 0 && (both || callBounds || h == 0 || c.Quad) {
@@ -93,7 +99,8 @@ func c12Run(raw []byte) (*Line, error) {
 	if both && h > 0 && bmax > bmin && h/(2*(bmax-bmin)) > 200 {
 		return nil, fmt.Errorf("image series too long")
 	}
-	if both && h == 0 && bmax > bmin && len(xs) > 0 && (xmax-xmin+1)/(2*(bmax-bmin)) > 20 {
+	// (Scott's bandwidth is at most 1.06 * StdDev <= 1.06 * range: a scale-free bound)
+	if both && h == 0 && bmax > bmin && len(xs) > 0 && 1.06*(xmax-xmin)/(2*(bmax-bmin)) > 20 {
 		return nil, fmt.Errorf("image series too long (lazy bandwidth)")
 	}
 	sort.Float64s(pts)
@@ -436,6 +443,9 @@ func c12Points(rng *rand.Rand, xs []float64, h, bmin, bmax float64, bc bool, n i
 	return pts
 }
 
+// c12Thin: set by c12Gen for the quick tier (see c12Random)
+var c12Thin bool
+
 func c12Random(rng *rand.Rand, kernel, conf, n int) c12Case {
 	xs := c12Values(rng, n)
 	lo, hi, spread := c12Spread(xs)
@@ -456,7 +466,19 @@ func c12Random(rng *rand.Rand, kernel, conf, n int) c12Case {
 		}
 	}
 	c.H, c.Bmin, c.Bmax = F64(h), F64(bmin), F64(bmax)
-	c.Pts = toF64s(c12Points(rng, xs, h, bmin, bmax, conf != 0, 12+rng.Intn(12)))
+	pts := c12Points(rng, xs, h, bmin, bmax, conf != 0, 12+rng.Intn(12))
+	if c12Thin && n > 12 {
+		// quick tier: the exact model costs O(points x sample size) rational additions; halve
+		// the points of the large samples (every feature is hit by the small ones)
+		var half []float64
+		for i, p := range pts {
+			if i%2 == 0 {
+				half = append(half, p)
+			}
+		}
+		pts = half
+	}
+	c.Pts = toF64s(pts)
 	c.First = rng.Intn(3)
 	if c.First == 2 && rng.Intn(2) == 0 {
 		c.First = 0
@@ -464,6 +486,164 @@ func c12Random(rng *rand.Rand, kernel, conf, n int) c12Case {
 	c.Bounds = rng.Intn(2) == 0
 	c.Quad = kernel != 2 && rng.Intn(2) == 0
 	return c
+}
+
+// c12ScottDegenerate reports whether BandwidthScott would return 0 for the unweighted sample:
+// all values equal, or the R8 quartiles (sample.go Quantile, same float formula) coincide.
+func c12ScottDegenerate(xs []float64) bool {
+	if len(xs) == 0 {
+		return true
+	}
+	s := append([]float64(nil), xs...)
+	sort.Float64s(s)
+	if s[0] == s[len(s)-1] {
+		return true
+	}
+	quant := func(q float64) float64 {
+		N := float64(len(s))
+		n := 1/3.0 + q*(N+1/3.0)
+		kf, frac := math.Modf(n)
+		k := int(kf)
+		if k <= 0 {
+			return s[0]
+		} else if k >= len(s) {
+			return s[len(s)-1]
+		}
+		return s[k-1] + frac*(s[k]-s[k-1])
+	}
+	return !(quant(0.75)-quant(0.25) > 0)
+}
+
+// c12Outside: configurations the random generators can stumble into that are outside the
+// property (c12Run rejects them): an empty support, and a lazy bandwidth of 0 under a double
+// boundary (the implementation does not return there).
+func c12Outside(c c12Case) bool {
+	bmin, bmax := float64(c.Bmin), float64(c.Bmax)
+	bc := bmin != 0 || bmax != 0
+	if bc && !(bmin < bmax) {
+		return true
+	}
+	both := bc && !math.IsInf(bmin, -1) && !math.IsInf(bmax, 1)
+	return both && float64(c.H) == 0 && !c.HasW && c12ScottDegenerate(fromF64s(c.Xs))
+}
+
+// c12Scale multiplies every length of the case (data, bandwidth, boundaries, points) by 2^k.
+// Powers of two keep every dyadic value and every float relation exact; densities scale by
+// 2^-k, probabilities not at all.  BoundaryMin = BoundaryMax = 0 ("no boundary") stays 0.
+func c12Scale(c c12Case, k int) c12Case {
+	if k == 0 {
+		return c
+	}
+	sc := func(v F64) F64 {
+		x := float64(v)
+		if x == 0 || math.IsInf(x, 0) || math.IsNaN(x) {
+			return v
+		}
+		return F64(math.Ldexp(x, k))
+	}
+	scs := func(vs []F64) []F64 {
+		out := make([]F64, len(vs))
+		for i, v := range vs {
+			out[i] = sc(v)
+		}
+		return out
+	}
+	c.Xs, c.Pts = scs(c.Xs), scs(c.Pts)
+	c.H, c.Bmin, c.Bmax = sc(c.H), sc(c.Bmin), sc(c.Bmax)
+	return c
+}
+
+// the scale dimension of the random generators: two cases in five are moved to another scale,
+// 2^k with k in -40..40 (nanosecond time stamps, byte counts, ... as well as tiny magnitudes)
+func c12RandScale(rng *rand.Rand) int {
+	switch rng.Intn(5) {
+	case 0:
+		return rng.Intn(81) - 40
+	case 1:
+		return []int{-40, -30, -20, 20, 30, 40}[rng.Intn(6)]
+	}
+	return 0
+}
+
+// c12Grid: deterministic cases that put every (kernel x boundary configuration x weighted)
+// cell through every feature the comparator tags (points AT the boundaries, at kernel support
+// ends, Bounds, quadrature, far images, lazy bandwidth in the three call orders, both branches
+// of Scott's rule), at scale 1 and at the scales 2^40 and 2^-40.
+func c12Grid(emit func(c interface{})) {
+	inf := math.Inf(1)
+	bounds := func(conf int, lo, hi float64) (float64, float64) {
+		switch conf {
+		case 1:
+			return lo, inf
+		case 2:
+			return -inf, hi
+		case 3:
+			return lo, hi
+		}
+		return 0, 0
+	}
+	xs := []float64{1, 2, 4}
+	wts := []float64{1, 2.5, 0.5}
+	scales := []int{0, 40, -40}
+	for kernel := 0; kernel < 3; kernel++ {
+		for conf := 0; conf < 4; conf++ {
+			for w := 0; w < 2; w++ {
+				for _, k := range scales {
+					// bandwidth 1: supports [0,2], [1,3], [3,5] against the boundaries 0.5 and 4.5
+					c := c12Case{Xs: toF64s(xs), Kernel: kernel, H: 1, Bounds: true, Quad: kernel != 2}
+					if w == 1 {
+						c.HasW, c.Ws = true, toF64s(wts)
+					}
+					bmin, bmax := bounds(conf, 0.5, 4.5)
+					c.Bmin, c.Bmax = F64(bmin), F64(bmax)
+					var pts []float64
+					for q := -6; q <= 26; q++ {
+						pts = append(pts, float64(q)/4) // contains 0.5, 4.5, every x_i and every x_i +- h
+					}
+					c.Pts = toF64s(pts)
+					c.First = (kernel + conf + w) % 3
+					emit(c12Scale(c, k))
+				}
+				if kernel == 2 || conf != 3 {
+					continue
+				}
+				// bandwidth larger than the interval: images beyond the nearest ones contribute
+				for _, k := range []int{0, 40, -40, 20} {
+					c := c12Case{Xs: toF64s(xs), Kernel: kernel, H: 6, Bmin: 0.5, Bmax: 4.5, Bounds: true, Quad: true}
+					if w == 1 {
+						c.HasW, c.Ws = true, toF64s(wts)
+					}
+					c.Pts = toF64s([]float64{0, 0.5, 0.75, 1, 2, 2.5, 3.75, 4, 4.25, 4.5, 5})
+					emit(c12Scale(c, k))
+				}
+			}
+		}
+	}
+	// lazy bandwidth: every kernel x configuration x call order, on a sample where Scott's rule
+	// takes the StdDev branch (uniform) and one where it takes the IQR branch (heavy tails)
+	sdS := []float64{1, 2, 3, 4, 5, 6, 7, 8}
+	iqrS := []float64{0, 4, 4.25, 4.5, 4.75, 5, 5.25, 12}
+	i := 0
+	for kernel := 0; kernel < 3; kernel++ {
+		for conf := 0; conf < 4; conf++ {
+			for first := 0; first < 3; first++ {
+				for si, smp := range [][]float64{sdS, iqrS} {
+					lo, hi, _ := c12Spread(smp)
+					c := c12Case{Xs: toF64s(smp), Kernel: kernel, H: 0, First: first, Bounds: true, Quad: kernel != 2 && si == 0 && first == 0}
+					bmin, bmax := bounds(conf, lo-0.5, hi+1)
+					c.Bmin, c.Bmax = F64(bmin), F64(bmax)
+					var pts []float64
+					for q := -4; q <= 28; q++ {
+						pts = append(pts, float64(q)/2)
+					}
+					pts = append(pts, lo-0.5, hi+1)
+					c.Pts = toF64s(pts)
+					emit(c12Scale(c, scales[i%3]))
+					i++
+				}
+			}
+		}
+	}
 }
 
 func c12Size(rng *rand.Rand) int {
@@ -479,6 +659,17 @@ func c12Size(rng *rand.Rand) int {
 
 func c12Gen(tier string, rng *rand.Rand, emit func(c interface{})) {
 	thorough := tier == "thorough"
+	c12Thin = !thorough
+	emitAll := emit
+	emit = func(ci interface{}) {
+		if c, ok := ci.(c12Case); ok && c12Outside(c) {
+			return // outside the property (see c12Outside); the deterministic degenerate cases below stay
+		}
+		emitAll(ci)
+	}
+
+	// ---- deterministic feature grid (both tiers)
+	c12Grid(emit)
 
 	// ---- exhaustive small space: multisets of size 1..3 over {0,1,2,3}, half-integer
 	// bandwidths, boundaries on the half-integer grid, points on the quarter-integer grid:
@@ -531,6 +722,9 @@ func c12Gen(tier string, rng *rand.Rand, emit func(c interface{})) {
 					c.Pts = toF64s(pts)
 					c.Quad = kernel == 0 && bi%3 == 0
 					c.Bounds = bi%2 == 0 && !(kernel == 2 && lo == hi)
+					if rng.Intn(4) == 0 {
+						c = c12Scale(c, []int{-40, -12, 12, 40}[rng.Intn(4)])
+					}
 					emit(c)
 				}
 			}
@@ -598,7 +792,7 @@ func c12Gen(tier string, rng *rand.Rand, emit func(c interface{})) {
 						}
 					}
 				}
-				emit(c)
+				emit(c12Scale(c, c12RandScale(rng)))
 			}
 		}
 	}
@@ -620,14 +814,24 @@ func c12Gen(tier string, rng *rand.Rand, emit func(c interface{})) {
 		// Scott's bandwidth is at most 1.06*s: use the spread as the scale of boundaries and points
 		bmin, bmax := c12Boundaries(rng, conf, lo, hi, spread, spread/2)
 		c.Bmin, c.Bmax = F64(bmin), F64(bmax)
-		c.Pts = toF64s(c12Points(rng, xs, spread/2, bmin, bmax, conf != 0, 14))
+		lpts := c12Points(rng, xs, spread/2, bmin, bmax, conf != 0, 14)
+		if c12Thin && n > 12 {
+			var half []float64
+			for i, p := range lpts {
+				if i%2 == 0 {
+					half = append(half, p)
+				}
+			}
+			lpts = half
+		}
+		c.Pts = toF64s(lpts)
 		if kernel == 2 && lo == hi {
 			c.Bounds = false
 			if c.First == 2 {
 				c.First = 0
 			}
 		}
-		emit(c)
+		emit(c12Scale(c, c12RandScale(rng)))
 	}
 
 	// ---- Gaussian kernel on 1..4 dyadic values with few points (the window of the M2
@@ -679,6 +883,9 @@ func c12Gen(tier string, rng *rand.Rand, emit func(c interface{})) {
 		c.Pts = toF64s(pts)
 		c.Quad = true
 		c.Bounds = rng.Intn(2) == 0
+		if rng.Intn(3) == 0 {
+			c = c12Scale(c, []int{-40, -20, 20, 40}[rng.Intn(4)])
+		}
 		emit(c)
 	}
 
